@@ -1092,7 +1092,7 @@ static int janet_channel_pop_with_lock(JanetChannel *channel, Janet *item, int i
             msg.argp = channel;
             msg.argj = janet_wrap_nil();
             janet_ev_post_event(vm, janet_thread_chan_cb, msg);
-        } else {
+        } else if (writer.sched_id == writer.fiber->sched_id) {
             if (writer.mode == JANET_CP_MODE_CHOICE_WRITE) {
                 janet_schedule(writer.fiber, make_write_result(channel));
             } else {
